@@ -132,6 +132,9 @@ where
                     }
                 }
             }
+            // an iterator exhausted by an over-long nth() is empty for the fold family too
+            let extra = it.fold(0usize, |a, _| a + 1);
+            crate::check!(extra == 0, "{}: fold() visited {} elements of an iterator that nth() had exhausted (next() yields none)", what, extra);
             return (out, false);
         }
         5 => {
@@ -173,6 +176,8 @@ where
             crate::check!(pos.is_none() && visited == remaining, "{}: position() visited {} elements, {} remain", what, visited, remaining);
             exact(&it, 0, total);
             crate::check!(it.next().is_none(), "{}: Some after position() walked to the end", what);
+            let extra = it.count();
+            crate::check!(extra == 0, "{}: count() = {} on an exhausted iterator", what, extra);
             return (out, false);
         }
         _ => {
@@ -193,6 +198,10 @@ where
                 }
                 exact(&it, 0, total);
             }
+            // ... and so does the fold family on the exhausted iterator
+            let mut extra = 0usize;
+            it.for_each(|_| extra += 1);
+            crate::check!(extra == 0, "{}: for_each() visited {} elements of an exhausted iterator", what, extra);
         }
     }
     (out, true)
